@@ -21,7 +21,7 @@ func obUnits(c *rules.Ctx, id string) {
 }
 
 func obRangeEnds(c *rules.Ctx, id string) {
-	ob := c.R.Ob(id, "mapping/range-ends", "a range built from a parse context starts at its start token and ends at its stop token", 4)
+	ob := c.R.Ob(id, "mapping/range-ends", "a range built from a parse context starts at its start token and ends at its stop token", 2)
 	c.RangeEnds(ob, "parse", parseRoots(c, ob))
 }
 
